@@ -448,14 +448,19 @@ def closeness_case(group, ua, ud, form_a, form_d, atol_spec, rtol_spec, f, sign,
         ex_all = [("ret", verdict_n)]
         if rtol_spec[0] == "bad" or atol_spec[0] == "incomm":
             cls, ex_el, ex_all = "tolerance-with-units", [("exc", None)], [("exc", None), ("ret", False)]
+        elif has_offset(cu) and rtol > 0:
+            # a relative tolerance on an offset scale (degC/degF readings): its own defect site,
+            # whatever spelling the tolerance has
+            cls = "rtol-offset-unit"
+            if atol_spec[0] == "unit" or rtol_spec[0] in ("dimless", "percent"):
+                ex_el.append(("exc", None))
+                ex_all.append(("exc", None))
         elif atol_spec[0] == "unit" or rtol_spec[0] in ("dimless", "percent"):
             cls = "tolerance-with-units"             # honoured, or refused by raising
             ex_el.append(("exc", None))
             ex_all.append(("exc", None))
         elif explicit_dimless:
             cls = "dimensionless-quantity-as-bare"
-        elif has_offset(cu) and rtol > 0:
-            cls = "rtol-offset-unit"
         elif a_bare or d_bare:
             cls = "bare-operand"
         elif atol_spec[0] == "bare":
